@@ -57,6 +57,16 @@ def run(ctx):
             opts["voltage_depend_loads"] = False          # (the default is True; the ZIP findings are C01's)
             if rng.random() < 0.3:
                 opts.update(algorithm=rng.choice(["bfsw", "iwamoto_nr", "fdbx"]), max_iteration=200)
+            mv_ = [int(b_) for b_ in net.bus.index[(net.bus.vn_kv == 20.) & net.bus.in_service]]
+            if rng.random() < 0.3 and len(mv_) >= 2 and variant == "full":
+                # a phase-shifting transformer fed from its lv side (step-up to a 110 kV bus with a load), solved by the sweep
+                # solver in half of these cases
+                hb_ = pp.create_bus(net, 110.)
+                pp.create_transformer_from_parameters(net, hb_, rng.choice(mv_[1:]), 25., 110., 20., 0.3, 10., 15., 0.04,
+                                                      shift_degree=rng.choice([150, 30, -30]))
+                pp.create_load(net, hb_, 1.5, 0.4)
+                if rng.random() < 0.5:
+                    opts.update(algorithm="bfsw", max_iteration=300, calculate_voltage_angles=True)
         case = {"options": opts, "dc": dc, "net_json": pp.to_json(net)}
         try:
             with core.quiet():
@@ -64,7 +74,14 @@ def run(ctx):
         except Exception as e:       # noqa
             ctx.hist("run", type(e).__name__)
             continue
+        if net.res_ext_grid.p_mw[net.ext_grid.in_service.values].isna().any():
+            ctx.hist("run", "no-result-for-the-slack (singular system)")       # nothing was solved: no balance to check
+            continue
         ctx.hist("run", "dc" if dc else "ac")
+        bfsw_t3 = opts.get("algorithm") == "bfsw" and len(net.trafo3w) and bool(net.trafo3w.in_service.any())
+
+        def kf(key_):
+            return "bfsw-trafo3w" if bfsw_t3 else key_
         total = 0.0
         for tab, sign in c01.BUS_ELEMENTS:
             if len(net[tab]):
@@ -83,7 +100,7 @@ def run(ctx):
                 pl = np.nan_to_num(r.pl_mw.values)
                 if not np.allclose(pl, s, atol=1e-9):
                     j = int(np.argmax(np.abs(pl - s)))
-                    ctx.failure(f"pl-def:{tab}", f"{tab} {r.index[j]}: pl_mw = {pl[j]!r}, sum of terminal powers = {s[j]!r}", case)
+                    ctx.failure(kf(f"pl-def:{tab}"), f"{tab} {r.index[j]}: pl_mw = {pl[j]!r}, sum of terminal powers = {s[j]!r}", case)
                 if dc and np.any(np.abs(pl) > 1e-9):
                     ctx.failure(f"dc-loss:{tab}", f"rundcpp: {tab} reports losses {pl[np.abs(pl) > 1e-9][:3].tolist()}", case)
                 if not dc:
@@ -93,7 +110,7 @@ def run(ctx):
                         ok_passive = (np.isclose(t_.rft_pu.values, t_.rtf_pu.values) & np.isclose(t_.xft_pu.values, t_.xtf_pu.values))
                     neg = np.flatnonzero((pl < -1e-9) & ok_passive)
                     if len(neg):
-                        ctx.failure(f"negative-loss:{tab}", f"{tab} {r.index[neg[0]]}: pl_mw = {pl[neg[0]]!r} < 0 for a passive branch", case)
+                        ctx.failure(kf(f"negative-loss:{tab}"), f"{tab} {r.index[neg[0]]}: pl_mw = {pl[neg[0]]!r} < 0 for a passive branch", case)
         if len(net.switch) and "res_switch" in net and "p_from_mw" in net.res_switch:
             rs = net.res_switch
             m = (net.switch.et == "b").values & ~np.isnan(rs.p_from_mw.values)
@@ -117,7 +134,7 @@ def run(ctx):
                             exp += float(r_[col]) * (vm ** 2 - 1)
                 if abs(abs(total - losses) - abs(exp)) <= 1e-6 * max(1.0, len(net.bus)) and abs(exp) > 0:
                     key = "dc-shunt-at-pv-bus"
-            ctx.failure(key, f"generation - consumption = {total!r} MW, sum of the reported branch losses = {losses!r} MW", case)
+            ctx.failure(kf(key), f"generation - consumption = {total!r} MW, sum of the reported branch losses = {losses!r} MW", case)
         ctx.sample({"options": opts, "dc": dc, "total": total, "losses": losses}, cap=3)
         if dc or "algorithm" in opts:
             continue          # (the correspondence reads the Newton-Raphson solver's internal voltage vector)
